@@ -218,8 +218,10 @@ where
                                 return;
                             }
 
-                            // Step 2: Share work.
-                            if pending.len() > 1 && thread_count > 1 {
+                            // Step 2: Share work. Not while serving requests: a worker drops the
+                            // requests that match none of its pending states, so a state handed to
+                            // it afterwards would never be checked although it was asked for.
+                            if !wait_for_fingerprints && pending.len() > 1 && thread_count > 1 {
                                 job_broker.split_and_push(&mut pending);
                             }
                         }
